@@ -19,7 +19,25 @@ iterator pipelines — see C15_helpers):
   R5 stdout discipline   in cargo-libcnb the only stdout print runs once per entry of the id -> packaged-dir map under the
                          single per-entry condition "some selected root node has this id" (filter stage or `if`), and
                          prints that entry's directory
-Not decided: cargo's build, contents of binaries, interrupted-run states beyond the wipe.
+  R6 package directory   --package-dir relative to the invocation directory, default <workspace root>/packaged
+Deepening round (C15_helpers, second half) — the functions that carry the data, and end-to-end normal forms:
+  R7 every node          the packaging call (and the wipe before it) runs for every element of the build order: no filter /
+                         truncating stage, no per-node condition, no early `continue` / `break` on any path; every
+                         additional binary of the map is copied; the id -> dir map handed to the packaging call is the
+                         one the destinations are recorded in, once per node
+  R8 end to end          in `execute`'s terms (helpers inlined, the resolver closure applied): destination = <package
+                         dir>/../<id with every "/" replaced>; every mutation of the loop lies below it; buildpack.toml
+                         comes from the same node's directory; `cargo build --target T` runs in that directory; bin/build
+                         comes from <target dir of that directory's own manifest>/T/<profile dir>/<determined main target>
+  R9 build_binary        Ok(path) only under ExitStatus::success(); path = target_directory/triple/<debug|release>/name;
+                         `--release` passed exactly for the profile read from release/
+  R10 cargo.rs           binary target names = names of *all* root-package targets with is_bin() (no truncation); the main
+                         target is the only binary target or the one named like the package (membership checked)
+  R11 buildpack kind     LibCnbRs <=> component descriptor + Cargo.toml, Composite <=> composite descriptor; dispatch
+  R12 discovery          ignore-file honouring walk from the start directory, entries with buildpack.toml, no truncation;
+                         workspace root by `cargo locate-project --workspace` in the invocation directory
+Not decided: cargo's build, contents of binaries, interrupted-run states beyond the wipe, the constant written as the
+libcnb.rs package.toml.
 """
 import re
 from .lib.discard import result_fates, verdict
@@ -111,6 +129,22 @@ def run(ctx, rep):
         rec = [e for e in may1 if e.kind == 'RECORD']
         okm = any(strip(e.path) == dest for e in rec)
         rep.check(okm, 'R1', 'recorded', p.where(), 'the packaged directory recorded for the id is the destination that was filled', 'the id -> packaged dir map does not record the destination')
+    # ---- R7 ------------------------------------------------------------------------------------------
+    rep.rule('R7', 'every node of the build order is wiped and packaged, every additional binary is copied, dependencies see the recorded directories')
+    if len(pk) == 1:
+        p = pk[0]
+        vd, why, it = H.every_element(E1, p)
+        base_ok = it is not None and it.base is not None and any(x[0] == 'call' and x[1] == DEPS for x in walk(it.base))
+        if vd == 'unproven' or (vd == 'ok' and not base_ok):
+            rep.unproven('R7', 'every-node', p.where(), 'cannot show that every node of the build order is packaged: %s' % (why or 'the loop does not range over get_dependencies(..)'))
+        else:
+            rep.check(vd == 'ok', 'R7', 'every-node', p.where(), 'the packaging call runs for every node of get_dependencies(graph, selected)',
+                      'not every node of the build order is packaged into a wiped directory: %s' % why)
+        rec = [e for e in may1 if e.kind == 'RECORD' and dest is not None and strip(e.path) == dest]
+        ok = len(rec) == 1 and len(p.args or ()) > 5 and H.same_object(sl, strip(p.args[5]), strip(rec[0].args[0])) and H.every_element(E1, rec[0])[0] == 'ok' \
+            and H.always_before(E1, p, rec[0])
+        rep.check(ok, 'R7', 'dependencies-map', p.where(), 'the id -> directory map handed to the packaging call is the one every packaged node is recorded in (once, after it was packaged)',
+                  'the map of already packaged buildpacks handed to package_buildpack is not the map the destinations are recorded in (once per node, after packaging)')
     # ---- R2 ------------------------------------------------------------------------------------------
     af = prog.fn(AS)
     rep.analysed(af)
@@ -157,6 +191,12 @@ def run(ctx, rep):
         c2, p2 = L.loop_element(g[2].args[0])
         rep.check(c1 is not None and c1 == c2 and p1 == ('0',) and p2 == ('1',), 'R2', 'additional/name', g[2].where(), 'each additional binary copied to <dir>/<its target name>',
                   'additional binary file name is not the target name of the copied binary')
+        vd, why, it = H.every_element(E, g[2])
+        if vd == 'unproven':
+            rep.unproven('R7', 'every-additional-binary', g[2].where(), 'cannot show that every additional binary is copied: %s' % why)
+        else:
+            rep.check(vd == 'ok' and it is not None and H.same(it.base, c1), 'R7', 'every-additional-binary', g[2].where(), 'every entry of additional_target_binary_paths is copied',
+                      'not every additional binary is copied: %s' % (why or 'the loop does not range over additional_target_binary_paths'))
     # package.toml / descriptor source / composite descriptor: on the effects of the two packaging functions (the writes may
     # sit in private helpers), with assemble_buildpack_directory as a vocabulary entry so that its call sites are enumerated
     pl = prog.fn('libcnb_package::package::package_libcnb_buildpack')
@@ -265,11 +305,30 @@ def run(ctx, rep):
                 # the iterated map is the one the destinations were recorded in, also when a private helper fills and returns it
                 src_ok = H.same_through_helpers(sl, it.base, maps[0])
                 sel_ok = False
+                id_test = []
                 for v, oc in H.pred_views(preds[0]):
                     v = strip(v)
                     if v[0] == 'call' and v[1].endswith('::any') and oc is True and v[2]:
                         over = H.decompose(sl, v[2][0])
-                        sel_ok = sel_ok or (not over[1] and not over[2] and any(H.same(over[0], r) for r in roots))
+                        this = not over[1] and not over[2] and any(H.same(over[0], r) for r in roots)
+                        sel_ok = sel_ok or this
+                        if this and len(v[2]) == 2:
+                            # ... and "has this id" is: root.buildpack_id == <id of the entry>
+                            # (the root nodes may be several alternatives: `vec![node]` | all nodes | none — the test is read for each)
+                            ra = H.iters.alts(sl, v[2][0])
+                            if not ra:
+                                id_test.append(False)
+                            for el, _, _ in ra:
+                                r = sl.apply_closure(v[2][1], (el,))
+                                r, roc = H._peel_not(strip(r), True) if r is not None else (None, True)
+                                r = strip(r) if r is not None else None
+                                if r is not None and r[0] == 'call' and len(r[2]) == 2 and ((r[1].endswith('::eq') and roc is True) or (r[1].endswith('::ne') and roc is False)):
+                                    a, b = H.peel_path(r[2][0]), H.peel_path(r[2][1])
+                                    is_root_id = lambda x: x[0] == 'field' and x[2] == 'buildpack_id' and H.same(x[1], el)
+                                    is_entry_id = lambda x: x[0] == 'field' and x[2] == '0' and it.elem is not None and H.same(x[1], it.elem)
+                                    id_test.append((is_root_id(a) and is_entry_id(b)) or (is_root_id(b) and is_entry_id(a)))
+                                else:
+                                    id_test.append(False)
                 ok = src_ok and sel_ok
                 # the printed value is the map value (packaged dir) of that entry
                 for av in e.args or ():
@@ -279,6 +338,16 @@ def run(ctx, rep):
                             printed_ok = printed_ok or (coll is not None and H.same_through_helpers(sl, coll, maps[0]) and proj == ('1',))
         rep.check(ok and printed_ok, 'R5', 'selection', c.where(), 'prints the packaged directory of each selected root buildpack',
                   'the stdout print is not the for_each over the packaged dirs filtered by the selected root nodes')
+        if ok:
+            rep.check(bool(id_test) and all(id_test), 'R5', 'selection-test', c.where(), 'an entry is printed iff some selected root node\'s buildpack_id equals the entry\'s id',
+                      'the per-entry test is not `root.buildpack_id == <entry id>`')
+        # one directory per line and nothing else: the format is exactly "<dir>\n"
+        if len(pe) == 1:
+            fm = [x for a in (pe[0].args or ()) for x in walk(a) if x[0] == 'fmt']
+            pieces = list(fm[0][1]) if len(fm) == 1 else None
+            ok_fmt = pieces is not None and len([p_ for p_ in pieces if not isinstance(p_, str)]) == 1 and not isinstance(pieces[0], str) and \
+                ''.join(p_ for p_ in pieces if isinstance(p_, str)) == '\n'
+            rep.check(ok_fmt, 'R5', 'line-format', c.where(), 'each directory is printed as one line of its own', 'the stdout line is not exactly "<directory>\\n": %s' % (pieces,))
     # ---- R6 ------------------------------------------------------------------------------------------
     # where the output goes: a relative --package-dir is resolved against the invocation directory (not the workspace root);
     # the default is <workspace root>/packaged
@@ -329,3 +398,11 @@ def run(ctx, rep):
               'the package directory is not made absolute against the invocation directory: ' + detail)
     rep.check(ok_default, 'R6', 'package-dir/default', w(ex), 'default package directory = <workspace root>/packaged',
               'the default package directory is not <workspace root>/packaged: ' + detail)
+    # ---- deepening round: R8 .. R12 (C15_helpers) ------------------------------------------------------
+    for rule, fn_, args in (('R8', H.rules_e2e, (ctx, rep, ex, dest)), ('R9', H.rules_build_binary, (ctx, rep)), ('R10', H.rules_cargo, (ctx, rep)),
+                            ('R11', H.rules_kind, (ctx, rep)), ('R12', H.rules_discovery, (ctx, rep))):
+        try:
+            fn_(*args)
+        except (IndexError, KeyError, TypeError, AttributeError, ValueError) as err:
+            # a shape of the code the rule does not understand is never accepted silently
+            rep.unproven(rule, 'shape', w(ex), 'the rule could not read the code it decides on (%s: %s)' % (type(err).__name__, err))
